@@ -1580,6 +1580,7 @@ pub async fn parse(path: &str) -> Result<(), Error> {
 
     // Update the configuration globally.
     CONFIG.store(Arc::new(config.clone()));
+    crate::vtrace!("config_stored", "path" => path);
 
     Ok(())
 }
@@ -1591,6 +1592,7 @@ pub async fn reload_config(client_server_map: ClientServerMap) -> Result<bool, E
         Ok(()) => (),
         Err(err) => {
             error!("Config reload error: {:?}", err);
+            crate::vtrace!("reload", "ok" => false, "changed" => false);
             return Err(Error::BadConfig);
         }
     };
@@ -1604,6 +1606,7 @@ pub async fn reload_config(client_server_map: ClientServerMap) -> Result<bool, E
 
     if old_config != new_config {
         info!("Config changed, reloading");
+        crate::vtrace!("reload", "ok" => true, "changed" => true);
         ConnectionPool::from_config(client_server_map).await?;
         Ok(true)
     } else {
